@@ -402,6 +402,9 @@ def main(tier, seed):
     nsc = 700 if tier == "quick" else 8000
     profcheck.run_scenarios(rep, "iteration", scenarios.iteration_scenarios(random.Random(seed + 2), nsc), binaries, PROP)
     profcheck.run_scenarios(rep, "fibers", scenarios.fiber_scenarios(random.Random(seed + 2), nsc, nfib=3), binaries, PROP)
+    # values of every kind in flight as exceptions through finally blocks that allocate; handlers whose frames reuse unwound stack slots
+    profcheck.run_scenarios(rep, "thrownvalues", scenarios.thrown_value_scenarios(), binaries, PROP)
+    profcheck.run_scenarios(rep, "handlerintact", scenarios.handler_intact_scenarios()[::2], binaries, PROP)
     states += rep.coverage.pop("states", 0)
     rep.coverage.pop("transitions", 0)
     ncmp += rep.coverage.pop("traces_validated_against_impl", 0)
